@@ -17,6 +17,10 @@ def _matcher(mod):
 
 def attempt(mod, rec, values):
     match = _matcher(mod)
+    if 'realising a symbolic real' in str(rec.get('what', '')):
+        # the symbolic run could not follow the code (a symbolic value was handed to float() / a numeric numpy array): the
+        # candidate carries no claim of its own - the concrete run of the same case decides, and any claim it fails counts
+        match = lambda recorded, observed: True
     env = ConcEnv(values, rec['choices'], tol=rec.get('tol', 1e-6))
     buf = io.StringIO()
     try:
@@ -69,7 +73,7 @@ def main(path):
             continue
         hit, note = attempt(mod, rec, values)
         if hit is not None:
-            print("REPRODUCED property=%s signature=%s (%s)" % (rec['property'], rec['signature'], name))
+            print("REPRODUCED property=%s signature=%s (%s)" % (rec['property'], hit['signature'], name))
             print("  what: %s" % hit['what'])
             print("  detail: %s" % json.dumps(hit.get('detail', {}), default=str)[:1500])
             print("  inputs: %s" % json.dumps({k: v for k, v in values.items() if not k.startswith('x') or '.' not in k})[:1500])
